@@ -89,6 +89,32 @@ UNITS = {
                  why="retry budget: unchanged (1 000 000) unless the adversarial harness is running, then 3 (bounded stand-in for C18)"),
         ],
     },
+    # a cfg(kani)-only public accessor so that harnesses in OTHER crates can look at the private fields
+    # of a record / the cache state of a reader instead of trusting the crate's own constructor or ==
+    "shm_pub": {
+        "crate": "clock-bound-shm", "features": "writer",
+        "edits": [Edit("clock-bound-shm/src/lib.rs", None, "append", """
+#[cfg(kani)]
+pub mod verif_pub {
+    use crate::{ClockErrorBound, ShmReader};
+    /// (as_of.sec, as_of.nsec, void_after.sec, void_after.nsec, bound_nsec, max_drift_ppb, reserved1, clock_status)
+    pub fn fields(c: &ClockErrorBound) -> (i64, i64, i64, i64, i64, u32, u32, i32) {
+        (c.as_of.tv_sec, c.as_of.tv_nsec, c.void_after.tv_sec, c.void_after.tv_nsec, c.bound_nsec, c.max_drift_ppb, c.reserved1,
+         c.clock_status as i32)
+    }
+    /// (cached generation, fields of the cached record) of a reader
+    pub fn reader_cache(r: &ShmReader) -> (u16, (i64, i64, i64, i64, i64, u32, u32, i32)) {
+        crate::reader::reader_cache_state(r)
+    }
+}
+""", why="cfg(kani)-only accessor for cross-crate harness oracles"),
+                  Edit("clock-bound-shm/src/reader.rs", None, "append", """
+#[cfg(kani)]
+pub(crate) fn reader_cache_state(r: &ShmReader) -> (u16, (i64, i64, i64, i64, i64, u32, u32, i32)) {
+    (r.snapshot_gen, crate::verif_pub::fields(&r.snapshot_ceb))
+}
+""", why="cfg(kani)-only accessor (ShmReader's fields are private to reader.rs)")],
+    },
     "shm_now": {
         "crate": "clock-bound-shm", "features": "writer",
         "files": [("clock-bound-shm/src/verif_now.rs", "harness/clock-bound-shm/verif_now.rs")],
@@ -237,7 +263,7 @@ def lemmas(*patterns):
 A_LEMMA = ("the spec functions of verus/lemmas.rs.tmpl (next_gen_spec, snapshot_step, upd_step/published, the hypotheses of lemma_c01_containment) restate the postconditions "
            "discharged on the real code by the named Kani/Verus obligations; the restatement is by hand except next_gen, whose Kani oracle text is verified against the spec function")
 
-DGRP = {"kind": "kani", "crate": "clock-bound-d", "units": ["d_nolog", "d_updater"], "modpath": "shm_writer::verif_updater"}
+DGRP = {"kind": "kani", "crate": "clock-bound-d", "units": ["shm_pub", "d_nolog", "d_updater"], "modpath": "shm_writer::verif_updater"}
 PGRP = {"kind": "kani", "crate": "clock-bound-d", "units": ["d_nolog", "d_poller"], "modpath": "chrony_poller::verif_poller"}
 POL = "harness/clock-bound-d/verif_poller.rs"
 UPD_FUNCS = ["clock_bound_d::shm_writer::ShmUpdater::{new, write_clock_error_bound, process_clock_update, process_missing_clock_update}",
@@ -271,7 +297,7 @@ PROPS = {
         "functions": UPD_FUNCS,
         "assumptions": UPD_ASSUME,
         "trusted": ["harness/clock-bound-d/verif_updater.rs (expected_record oracle)"],
-        "groups": [dict(DGRP, harnesses=[dh("c08_new_initial_state"), dh("c08_fsm_table"), dh("c08_update_step"), dh("c08_missing_step"), dh("c08_dispatch", timeout=900)]),
+        "groups": [dict(DGRP, harnesses=[dh("c08_new_initial_state"), dh("c08_fsm_table"), dh("c08_update_step"), dh("c08_missing_step"), dh("c08_history_collapses"), dh("c08_dispatch", timeout=900)]),
                    lemmas(r"C08\.lemma\..*")],
     },
     "C09": {
@@ -294,6 +320,8 @@ PROPS = {
             {"kind": "kani", "crate": "clock-bound-d", "units": ["d_main"], "modpath": "verif_main",
              "harnesses": [{"name": "c19_main_ppb", "file": "harness/clock-bound-d/verif_main.rs.tmpl", "replayable": True, "timeout": 600}]},
             dict(DGRP, harnesses=[dh("c08_new_initial_state"), dh("c08_update_step"), dh("c08_missing_step")]),
+            {"kind": "kani", "crate": "clock-bound-shm", "units": ["shm_layout"], "modpath": "verif_layout",
+             "harnesses": [sh("c17_record_constructor_stores_arguments_verbatim", "GEN", obligations=None)]},
         ],
     },
     "C10": {
@@ -304,7 +332,7 @@ PROPS = {
                         "f64::powi(2.0, n) == 2^n exactly (stubbed; Kani over-approximates powi)",
                         "update interval restricted to non-negative wire floats with exponent in [-10, 30] (interval < 2^29 s); age < 2^40 s"],
         "trusted": ["harness/clock-bound-d/verif_updater.rs (oracle: exact integer comparison of the age with 8 * interval)"],
-        "groups": [{"kind": "kani", "crate": "clock-bound-d", "units": ["d_nolog", "d_updater"], "modpath": "shm_writer::verif_updater",
+        "groups": [{"kind": "kani", "crate": "clock-bound-d", "units": ["shm_pub", "d_nolog", "d_updater"], "modpath": "shm_writer::verif_updater",
                     "harnesses": [dh("c10_from_u16", replayable=True)] + [
                         dh("c10_extract_status_e%s%d" % ("m" if e < 0 else "p", abs(e)),
                            obligations=["C10.extract.sync_only_if_leap", "C10.extract.sync_only_if_not_future",
@@ -332,7 +360,7 @@ PROPS = {
             {"kind": "verus", "gen": "extract", "obligations": [r"C07\.extract\.(formula_shape|never_smaller_than_the_sum|never_negative)"], "rlimit": 30,
              "float_dependent": ["C07.extract.formula_shape", "C07.extract.never_negative", "C07.extract.never_smaller_than_the_sum"],
              "pair": {"kind": "search", "crate": "clock-bound-d", "units": ["d_extract_search"], "features": None, "test": "verif_search_extract"}},
-            {"kind": "kani", "crate": "clock-bound-d", "units": ["d_nolog", "d_updater"], "modpath": "shm_writer::verif_updater",
+            {"kind": "kani", "crate": "clock-bound-d", "units": ["shm_pub", "d_nolog", "d_updater"], "modpath": "shm_writer::verif_updater",
              "harnesses": [{"name": n, "file": "harness/clock-bound-d/verif_updater.rs", "replayable": False, "tier": "quick", "timeout": 600}
                            for n in ("c07_nonneg", "c08_update_step", "c08_missing_step", "c09_fresh_then_nonsync")]},
             {"kind": "kani", "crate": "clock-bound-d", "units": ["d_main"], "modpath": "verif_main",
@@ -448,7 +476,8 @@ PROPS = {
         "trusted": ["spec/layout.json", "tools/layout_gen.py"],
         "groups": [
             {"kind": "kani", "crate": "clock-bound-shm", "units": ["shm_layout"], "modpath": "verif_layout",
-             "harnesses": [sh("c17_segment_layout", "GEN", obligations=None), sh("c17_status_encoding_in_memory", "GEN", obligations=None)]},
+             "harnesses": [sh("c17_segment_layout", "GEN", obligations=None), sh("c17_status_encoding_in_memory", "GEN", obligations=None),
+                           sh("c17_record_constructor_stores_arguments_verbatim", "GEN", obligations=None)]},
             dict(SHM_HDR_GRP, harnesses=[sh("c16_header_layout", HD)]),
             dict(SHM_WRITE_GRP, harnesses=[sh("c16_segment_size", WR)]),
             {"kind": "kani", "crate": "clock-bound-ffi", "units": ["ffi_layout"], "modpath": "verif_ffi",
